@@ -210,7 +210,16 @@ func (gen *Generator) PerftTactical(depth int) int64 {
 
 func (gen *Generator) PerftDivTactical(depth int)  {
 	var total int64 = 0
-	if depth <= 1 {
+	if depth < 1 {
+		return
+	}
+	if depth == 1 {
+		// paths of length one that end with a capture or promotion: the tactical moves themselves
+		for _, move := range gen.GenerateTacticalMoves() {
+			total++
+			fmt.Printf("%v: %d\n", move.mov, 1)
+		}
+		fmt.Println("total material-changing moves:", total)
 		return
 	}
 
